@@ -38,7 +38,13 @@ FAMILY = [('gauss_seidel', {'sweep': 'symmetric'}), ('gauss_seidel', {'sweep': '
           ('block_gauss_seidel', {'sweep': 'symmetric', 'blocksize': 1}),
           ('sor', {'omega': 1.5, 'sweep': 'forward'}), ('sor', {'omega': 0.4, 'sweep': 'symmetric'}),
           ('jacobi', {'omega': 4.0 / 3.0}), ('jacobi', {'omega': 1.0, 'iterations': 2}),
-          ('richardson', {'omega': 1.0}), ('chebyshev', {'degree': 3}), ('schwarz', {'sweep': 'symmetric'})]
+          ('richardson', {'omega': 1.0}), ('chebyshev', {'degree': 3}), ('schwarz', {'sweep': 'symmetric'}),
+          # several iterations of the polynomial / stationary methods (coarse-level smoothing starts from a zero guess)
+          ('chebyshev', {'degree': 2, 'iterations': 2}), ('richardson', {'omega': 1.0, 'iterations': 3}),
+          ('block_gauss_seidel', {'sweep': 'forward', 'blocksize': 1, 'iterations': 2}),
+          # genuine 2x2 blocks (with blocksize 1 the setup substitutes point Gauss-Seidel); used where every smoothing
+          # level has an even number of unknowns
+          ('block_gauss_seidel', {'sweep': 'symmetric', 'blocksize': 2}), ('block_gauss_seidel', {'sweep': 'backward', 'blocksize': 2})]
 
 
 def energy_norm(E, A):
@@ -59,7 +65,7 @@ def run(ctx):
     if not (ctx.thorough or ctx.search):
         rng.shuffle(combos)
         forced = [c for c in combos if c[1][0].startswith('complex') and c[0][0] in ('sa', 'rootnode')][:4]
-        combos = forced + [c for c in combos if c not in forced][:26]
+        combos = forced + [c for c in combos if c not in forced][:38]
     # complex Hermitian problems with a coarsest level of several unknowns (a Hermitian, genuinely complex coarse matrix),
     # every direct coarse solver
     import pyamg
@@ -79,8 +85,12 @@ def run(ctx):
             continue
         A0 = hier.dense_of(ml.levels[0].A)
         cplx = np.iscomplexobj(A0)
+        # dealt out systematically (every family member is used as pre- and as post-smoother), then shuffled for the rest
         smoothers = list(FAMILY)
         rng.shuffle(smoothers)
+        smoothers = [FAMILY[ci % len(FAMILY)], FAMILY[(5 * ci + 2) % len(FAMILY)]] + smoothers
+        if any(ml.levels[l].A.shape[0] % 2 for l in range(nlev - 1)):
+            smoothers = [(nm, dict(kw, blocksize=1)) if kw.get('blocksize') == 2 else (nm, kw) for nm, kw in smoothers]
         for pre, post in [(smoothers[0], smoothers[1]), (smoothers[2], smoothers[2])][:1 if not ctx.thorough else 2]:
             coarse = ['splu', 'pinv', 'lu', 'cholesky'][ci % 4]      # dealt out, so that complex problems meet every solver
             ml.coarse_solver = coarse_grid_solver(coarse)
@@ -149,6 +159,17 @@ def run(ctx):
                 seq = [e0] + errs
                 if any(seq[i + 1] > seq[i] * (1 + 1e-9) + 1e-13 for i in range(len(seq) - 1)):
                     ctx.fail('solve-energy-not-monotone/%s' % cname, 'energy errors %s' % seq, cs)
+                # "for every right-hand side and every initial guess": the error map does not depend on b -- started AT
+                # the solution of a nonzero right-hand side the cycle stays there, started near it the error does not grow
+                for dist in (0.0, 1e-3):
+                    d0 = dist * np.array([rng.uniform(-1, 1) for _ in range(n0)]).astype(A0.dtype)
+                    x1 = ml.solve(b, x0=xs + d0, maxiter=1, tol=1e-300, cycle=cname, cycles_per_level=cpl)
+                    ed0 = np.sqrt(abs(np.vdot(d0, A0 @ d0)))
+                    ed1 = np.sqrt(abs(np.vdot(xs - x1, A0 @ (xs - x1))))
+                    if _nn(ed1) > ed0 * (1 + 1e-9) + 1e-9 * e0:
+                        ctx.fail('cycle-moves-exact-solution/%s' % cname if dist == 0 else 'cycle-increases-energy/%s/nonzero-rhs' % cname,
+                                 'b != 0, guess at distance %.3g (energy) from the solution: error after one cycle %.3g' % (ed0, ed1), cs)
+                ctx.count('nonzero-rhs-guess-at-solution')
     ctx.corr_relations = ['hypotheses of C02_cycle_does_not_increase_energy checked on each built hierarchy '
                           '(R == P^H exact, Galerkin, HPD levels, exact coarse solve, smoother energy norm <= 1)',
                           'dense error propagation of MultilevelSolver.solve: energy norm <= 1 (V, W, F)']
